@@ -30,8 +30,9 @@ REQUIRED_PROBES = ["multi_page", "empty_middle_page", "fault_between_pages", "re
                    "cancelled_mid_iteration", "rest_reply_body_lost", "attrs_read_between_page_fetches", "nonpaged_method", "map_paged", "scalar_paged", "concurrent_pagers",
                    "nonretryable_between_pages", "explicit_options_multi_page", "async_multi_page", "pages_consumed", "rest_fetch",
                    "rest_multi_page", "repeated_cursor_value"]
-ASSUMPTIONS = ["corners excluded from the grammar: both page_size and max_results in one request; wrapper-typed "
-               "page_size; streaming RPCs with paging-shaped messages (DESIGN.md section 3)"]
+ASSUMPTIONS = ["corners excluded from the grammar: a VALID page_size and a VALID max_results in one request (a mistyped "
+               "max_results next to a valid page_size is generated: finding 27); wrapper-typed page_size; streaming RPCs with "
+               "paging-shaped messages are generated and judged by C03 (finding 28), C07 classifies them as not paginated"]
 
 INT_TYPES = {"int32", "int64", "uint32", "uint64", "sint32", "sint64", "fixed32", "fixed64", "sfixed32", "sfixed64"}
 
